@@ -117,6 +117,10 @@ func (w *world) add(top files.Directory, p *api.AddParams, v variant, f *fault, 
 			res.err = fmt.Errorf("parameters do not survive the query string: %v", err)
 			return res
 		}
+		if v.Opts == 1 {
+			// a legal pin option that means nothing for an add
+			q.Set("pin-update", pinUpdateCid.String())
+		}
 		p2, err := api.AddParamsFromQuery(q)
 		if err != nil {
 			res.err = fmt.Errorf("parameters do not survive the query string: %v", err)
@@ -141,6 +145,8 @@ func (w *world) add(top files.Directory, p *api.AddParams, v variant, f *fault, 
 	}
 	return res
 }
+
+var pinUpdateCid, _ = cid.Decode("QmUNLLsPACCz1vLxQVkXqqLX5R1X345qqfHbsf67hvA3Nn")
 
 // ---- oracle -----------------------------------------------------------------
 
@@ -287,6 +293,12 @@ func optionDiffs(req, got api.PinOptions, checkName bool) []string {
 	}
 	if got.Mode != api.PinModeRecursive {
 		d = append(d, "mode")
+	}
+	if got.PinUpdate.Defined() {
+		// added content is a new pin of its own: a pin-update option that a
+		// request carried has no meaning for it and must not reach the pin
+		// (it would turn the pin into an update of another one)
+		d = append(d, "pin_update")
 	}
 	return d
 }
